@@ -23,7 +23,7 @@ def run(tier, seed, t0):
     os.makedirs(out, exist_ok=True)
     nrender = 5 if tier == "quick" else 15
     summ = json.loads(vlib.run_harness(["c06", rows, out, seed, nrender]))
-    events, mism, r = vlib.judge_trace("Trace_C06", os.path.join(out, "c06.events.ndjson"), timeout=3000)
+    events, mism, r = vlib.judge_trace("Trace_C06", os.path.join(out, "c06.events.ndjson"), timeout=3000, split=True)
     v = vlib.Verdict(PID)
     api_drift = {}
     for m in mism:
